@@ -37,6 +37,30 @@ def run(ctx):
                     continue      # a million-item list is slow to build, not a failure
                 for st in progsuite.STORES:
                     add(sh.replace('%s', a), st, host=rnd.choice(progsuite.HOSTS))
+        # ranges with both ends on a boundary lattice (ascending, descending, empty, beyond the end) used as values,
+        # as casts and as slices of every sequence kind, the slice then consumed by every kind of operation;
+        # a leading constant shifts where the range's numbers are stored
+        ends = ['0', '1', '2', '3', '5', '-1', '7', '2147483647', '-2147483648', '1.5'] if ctx.tier == 'thorough' else ['0', '1', '3', '5', '-1', '2147483647', '1.5']
+        conts = ['(1 2 3 4)', '"héllo"', "'abcd'", '(:a :b :c)', '((1 2) <> (3 4))', '(:k = 1, :j = 2, 3)']
+        uses = ['%s', '(%s) == (%s)', '(%s) != "l"', '(%s) ~# (,)', '(%s) ~# ""', "(%s) ~# ''", '(%s) . 0', '(%s) .|', '_. (%s)', '(%s) <> (%s)', '((%s) <> 9) . 1', '(%s) . :k', '(%s) <~ (0 .. 1)', '#(%s)', '(%s) < (%s)', '7 8, (%s)']
+        for a in ends:
+            for b in ends:
+                if (a, b) in (('-2147483648', '2147483647'), ('0', '2147483647'), ('1', '2147483647'), ('-1', '2147483647'), ('1.5', '2147483647'), ('3', '2147483647'), ('5', '2147483647'), ('2', '2147483647'), ('7', '2147483647')):
+                    rng_cast = False          # billions of items: recorded separately (F-C07-range-cast-unbounded)
+                else:
+                    rng_cast = True
+                for rop in ('..', '>..', '..<', '>..<'):
+                    if rop != '..' and ctx.tier == 'quick' and rnd.random() < 0.6:
+                        continue
+                    r = f'({a} {rop} {b})'
+                    for st in progsuite.STORES:
+                        if rng_cast:
+                            add(f'{r} ~# (,)', st); add(f'3, ({r} ~# (,))', st); add(f'{b}, {a}, ({r} ~# (,))', st)
+                        add(f'{r} == {r}', st); add(f'{r} . 0', st); add(f'{r} .|', st)
+                    for cont in conts:
+                        sl = f'{cont} <~ {r}'
+                        for u in (uses if ctx.tier == 'thorough' else rnd.sample(uses, 5)):
+                            add(u.replace('%s', sl), rnd.choice(progsuite.STORES), host=rnd.choice(progsuite.HOSTS))
         # generated programs (deeply nested data included), both stores, three host modes
         progs = progsuite.gen_programs(ctx, 1500 if ctx.tier == 'quick' else 40000, 1)
         for src, ast, root, stream in progs:
